@@ -9,7 +9,7 @@ package types
 // rewardValid is what BeginBlocker needs from the per-block reward list (C20: min(reward, remaining)
 // *per denomination*, so denominations must be pairwise distinct) and what parameter validation must
 // therefore establish (C15: every accepted value executes without panic).
-// verif:pred rewardFacts(r) := len(r) != 0 && forall i int :: 0 <= i && i < len(r) ==> len(r[i].Denom) != 0 && r[i].Amount >= 0
+// verif:pred rewardFacts(r) := len(r) != 0 && forall i int :: 0 <= i && i < len(r) ==> len(r[i].Denom) != 0 && sdk.ValidateDenom(r[i].Denom) == nil && r[i].Amount >= 0
 // verif:pred distinctDenoms(r) := forall i int :: forall j int :: 0 <= i && i < j && j < len(r) ==> r[i].Denom != r[j].Denom
 // verif:pred rewardValid(r) := rewardFacts(r) && distinctDenoms(r)
 
@@ -18,7 +18,7 @@ package types
 //@ ensures [facts]           result == nil ==> rewardFacts(as(r, sdk.Coins))
 //@ ensures [distinct-denoms] result == nil ==> distinctDenoms(as(r, sdk.Coins))
 //@ ensures [complete]        istype(r, sdk.Coins) && rewardValid(as(r, sdk.Coins)) ==> result == nil
-//@ loop 1 invariant [facts-so-far]    forall j int :: 0 <= j && j < idx1 ==> len(reward[j].Denom) != 0 && reward[j].Amount >= 0
+//@ loop 1 invariant [facts-so-far]    forall j int :: 0 <= j && j < idx1 ==> len(reward[j].Denom) != 0 && sdk.ValidateDenom(reward[j].Denom) == nil && reward[j].Amount >= 0
 //@ loop 1 invariant [distinct-so-far] forall a int :: forall b int :: 0 <= a && a < b && b < idx1 ==> reward[a].Denom != reward[b].Denom
 //@ loop 2 invariant [no-dup-so-far]   forall a int :: 0 <= a && a < idx2 ==> reward[a].Denom != rr.Denom
 
